@@ -53,6 +53,17 @@ KINDS = {
     "overflow-rem-min": ([("decl", "mn", None, ("bin", "-", ("bin", "-", I(0), I(2147483647)), V("a")), ())], ("decl", "v", None, ("bin", "%", V("mn"), ("bin", "-", I(0), V("a"))), ())),
     "overflow-abs-min": ([("decl", "mn", None, ("bin", "-", ("bin", "-", I(0), I(2147483647)), V("a")), ())], ("decl", "v", None, ("mcall", V("mn"), "abs", []), ())),
     "overflow-opassign": ([("decl", "big", None, I(2147483647), ())], ("opassign", V("big"), "+=", V("a"))),
+    # an op-assignment on a CELL (element, map entry, field) that still holds what a built-in handed back - a present optional
+    # with its wrapper - and whose result leaves the range of the kind
+    "overflow-opassign-wrapped-elem": ([("decl", "ws", None, S("2147483647"), ()), ("decl", "wl", ("list", ("opt", "int")), ("list", [("mcall", V("ws"), "parse_int", [])]), ())],
+                                       ("opassign", ("index", V("wl"), I(0)), "+=", V("a"))),
+    "overflow-opassign-wrapped-entry": ([("decl", "ws", None, S("2147483647"), ()), ("decl", "wm", None, ("map", "str", "int?", [(S("k"), ("mcall", V("ws"), "parse_int", []))]), ())],
+                                        ("opassign", ("index", V("wm"), S("k")), "+=", V("a"))),
+    "overflow-opassign-wrapped-field": ([("class", "HW", [("v", ("opt", "int"))], [("v", ("opt", "int"))], [("setf", V("self"), "v", V("v"))], []),
+                                         ("decl", "ws", None, S("2147483647"), ()), ("decl", "wh", None, ("new", "HW", [("mcall", V("ws"), "parse_int", [])]), ())],
+                                        ("opassign", ("field", V("wh"), "v"), "+=", V("a"))),
+    "overflow-opassign-wrapped-elem-mul": ([("decl", "ws", None, S("2147483647"), ()), ("decl", "wl", ("list", ("opt", "int")), ("list", [("mcall", V("ws"), "parse_int", [])]), ())],
+                                           ("opassign", ("index", V("wl"), I(0)), "*=", ("bin", "+", V("a"), V("a")))),
     "overflow-bigint-mul": ([("decl", "bb", "bigint", ("lit", "bigint", BIGMAX), ())], ("decl", "v", None, ("bin", "*", V("bb"), ("bin", "+", V("a"), V("a"))), ())),
     "str-delete-inside-char": ([("decl", "s", None, S("h\u00e9llo"), ())], ("decl", "v", None, ("mcall", V("s"), "delete", [I(0), ("bin", "+", V("a"), I(1))]), ())),
     "str-split-inside-char": ([("decl", "s", None, S("h\u00e9llo"), ())], ("print", ("mcall", V("s"), "split", [("bin", "+", V("a"), I(1))]))),
